@@ -455,7 +455,83 @@ pub fn run(rep: &mut Report) {
             }
         }
     }
+    evals += own_fields_in_calendars(rep);
     rep.evaluations += evals;
     rep.add("cases", evals);
     rep.require("cases");
+}
+
+
+/// "Applying a value's own fields to itself is the identity", in calendars other than ISO too: every single own field and the
+/// year-identifying pairs (year alone, era + eraYear) applied through PlainDate::with / PlainDateTime::with must give the receiver
+/// back, whatever the calendar. The oracle is the receiver itself (its ISO date); no calendar model is needed.
+fn own_fields_in_calendars(rep: &mut Report) -> u64 {
+    use std::str::FromStr;
+    const CALS: [&str; 12] = ["gregory", "japanese", "buddhist", "roc", "coptic", "ethiopic", "ethioaa", "hebrew", "indian", "persian", "islamic-civil", "iso8601"];
+    let mut rng = rep.cfg.rng("c17-own-fields");
+    let n = rep.cfg.budget(60_000, 3_000_000);
+    let mut evals = 0u64;
+    for _ in 0..n {
+        let sub = rng.u64();
+        if !rep.begin() {
+            continue;
+        }
+        evals += 1;
+        let mut r = Rng::new(sub, "c17-own", 0);
+        let cal_id = *r.pick(&CALS);
+        let day = if r.chance(1, 4) { gen_day(&mut r) } else { r.range(-200_000, 200_000) };
+        let (y, m, d) = civil_from_days(day);
+        let Ok(cal) = Calendar::from_str(cal_id) else { continue };
+        let Out::Ok(recv) = call(|| PlainDate::try_new(y as i32, m, d, cal.clone())) else { continue };
+        let which = r.below(6);
+        let (name, partial): (&str, Option<PartialDate>) = match which {
+            0 => ("day", Some(PartialDate::new().with_day(Some(recv.day())))),
+            1 => ("year", Some(PartialDate::new().with_year(Some(recv.year())))),
+            2 => ("monthCode", Some(PartialDate::new().with_month_code(Some(recv.month_code())))),
+            3 => ("month", Some(PartialDate::new().with_month(Some(recv.month())))),
+            4 => (
+                "era+eraYear",
+                match (recv.era(), recv.era_year()) {
+                    (Some(e), Some(ey)) => tinystr::TinyAsciiStr::<19>::try_from_utf8(e.as_bytes()).ok().map(|e| PartialDate::new().with_era(Some(e)).with_era_year(Some(ey))),
+                    _ => None,
+                },
+            ),
+            _ => ("monthCode+day", Some(PartialDate::new().with_month_code(Some(recv.month_code())).with_day(Some(recv.day())))),
+        };
+        let Some(partial) = partial else {
+            rep.hit("own-fields/no-era-in-this-calendar");
+            continue;
+        };
+        let ov = *r.pick(&[None, Some(ArithmeticOverflow::Constrain), Some(ArithmeticOverflow::Reject)]);
+        let case = || json!({"calendar": cal_id, "iso_date": format!("{}-{:02}-{:02}", fmt_year(y), m, d), "field": name, "overflow": format!("{ov:?}")});
+        let got = call(|| recv.with(partial.clone(), ov)).map(|x| pdate_days(&x));
+        match &got {
+            Out::Ok(g) if *g == day => {
+                rep.hit("own-fields/identity-held");
+                rep.nontrivial(fp!(40u64, day as u64, which, rng_str(cal_id)));
+            }
+            _ if got.is_broken() => rep.inconclusive("C17.identity", "panic"),
+            _ => rep.violation("C17.identity", "PlainDate::with(own field)", &format!("({},{name})", if cal_id == "iso8601" { "iso8601" } else { "other-calendar" }), case(), got.show(), format!("Ok({day})")),
+        }
+        // the same through PlainDateTime::with
+        if which < 3 {
+            let got = call(|| {
+                let dt = PlainDateTime::new(y as i32, m, d, 12, 34, 56, 7, 8, 9, cal.clone())?;
+                dt.with(PartialDateTime { date: partial.clone(), time: PartialTime::default() }, ov)
+            })
+            .map(|x| pdt_local_ns(&x));
+            let want = day as i128 * NS_PER_DAY + ((12 * 60 + 34) * 60 + 56) as i128 * 1_000_000_000 + 7_008_009;
+            match &got {
+                Out::Ok(g) if *g == want => {}
+                _ if got.is_broken() => rep.inconclusive("C17.identity", "panic"),
+                _ => rep.violation("C17.identity", "PlainDateTime::with(own field)", &format!("({},{name})", if cal_id == "iso8601" { "iso8601" } else { "other-calendar" }), case(), got.show(), format!("Ok({want})")),
+            }
+        }
+    }
+    rep.require("own-fields/identity-held");
+    evals
+}
+
+fn rng_str(s: &str) -> u64 {
+    hash_str(s)
 }
